@@ -1,4 +1,5 @@
 (** Protocol operations for the extra check X03 (typehelper.ToSlice), see Lib/Val.v.
+    (Operation names carry the suffix /values: the C20 widening owns the plain name typehelper.ToSlice.)
 
     Encoding of a Go value (harness/x03.go BUILDS the Go value from the same text with reflect and renders
     results back into it):
@@ -7,12 +8,12 @@
              | [4,T,[v,...]] array | [5,v] pointer to v | [6,T] nil pointer | [7,kind] map/struct/chan/func
       type   [0] interface{} | [1,k] | [2] string | [3,T] slice | [4,T,n] array | [5,T] pointer
 
-    [typehelper.ToSlice]        [v]  ->  P | [1, [elements]]   (1: the result is a non-nil slice)
+    [typehelper.ToSlice/values]        [v]  ->  P | [1, [elements]]   (1: the result is a non-nil slice)
     [typehelper.ToSlice/fresh]  [v]  ->  P | [[elements of a second call], v]  observed AFTER every slot of the
                                        first call's result was overwritten: results are fresh slices, the
                                        argument is not written to. *)
 From Coq Require Import ZArith List Bool String.
-From Low Require Import Lib.Val Model.TypeHelper Spec.TypeHelperSpec.
+From Low Require Import Lib.Val Model.ToSliceValues Spec.ToSliceValuesSpec.
 Import ListNotations.
 Open Scope string_scope.
 Open Scope Z_scope.
@@ -82,7 +83,7 @@ Definition out_fresh (g : gval) (r : option (list gval)) : val :=
   match r with Some l => VL [VL (map enc_val l); enc_val g] | None => VPanic end.
 
 Definition ops_X03 : list opdef := [
-  {| op_name := "typehelper.ToSlice";
+  {| op_name := "typehelper.ToSlice/values";
      op_run := fun a => match dec_arg a with Some g => out_plain (ToSlice g) | None => VBad end;
      op_spec := fun_spec (fun a => match dec_arg a with Some g => out_plain (spec_ToSlice g) | None => VBad end) |};
   {| op_name := "typehelper.ToSlice/fresh";
